@@ -12,7 +12,7 @@ func verifC20Build(p *Packet) verifExtModel {
 	ne := 0
 	switch kind {
 	case 3:
-		ne = 1
+		ne = verifCase("next", 0, 1) // a legacy header may have lost its value (DelExtension)
 	case 1, 2:
 		ne = verifCase("next", 0, verifBound("C20.maxext"))
 	}
@@ -193,4 +193,33 @@ func VerifC20SpareCapacity() {
 	verifAssert("C20.s.payload-orig", p.Payload[pl] == y)
 	_ = ref
 	verifCover("C20.spare.end")
+}
+
+// a legacy extension value of 64 KiB and more (the length field counts 32-bit
+// words, so up to 262140 bytes are legal): the clone is equal and independent
+func VerifC20Huge() {
+	var p Packet
+	verifFixedFields(&p.Header, 0)
+	p.Extension = true
+	p.ExtensionProfile = verifU16("profile")
+	verifAssume(p.ExtensionProfile != 0xBEDE)
+	verifAssume(p.ExtensionProfile != 0x1000)
+	words := verifPick("words", []int{0x3FFF, 0x4000, 0x4001, 0xFFFF})
+	v := verifFiller("legacy", 4*words)
+	verifAssert("C20.huge.set", p.SetExtension(0, v) == nil)
+	p.Payload = verifBytes("payload", 2)
+	byHeader := verifCase("headerClone", 0, 1) == 1
+	var c *Packet
+	if byHeader {
+		c = &Packet{Header: p.Header.Clone(), Payload: append([]byte{}, p.Payload...)}
+	} else {
+		c = p.Clone()
+	}
+	verifAssert("C20.huge.value", verifEqBytes(c.GetExtension(0), v))
+	verifAssert("C20.huge.size", c.MarshalSize() == p.MarshalSize())
+	verifAssert("C20.huge.disjoint", verifDisjoint(c.GetExtension(0), v))
+	ref, err := p.Marshal()
+	cm, err2 := c.Marshal()
+	verifAssert("C20.huge.marshal", err == nil && err2 == nil && verifEqBytes(cm, ref))
+	verifCover("C20.huge.end")
 }
